@@ -1,6 +1,7 @@
 CONSTANTS
   MaxVer = 3
   NQ = 2
+  NCheck = 1
   QKinds <- KAll
   Orders <- OAll
   Crashes = FALSE
